@@ -51,7 +51,7 @@ try { f(5) } catch (e) { st = e.stack; nm = e.name; isRef = e instanceof Referen
 func VerifH_C19_error_classes() {
 	vm := New()
 	wrap := func(body string) string {
-		return "var cls = 'none'; try { " + body + " } catch (e) { cls = e instanceof TypeError ? 'TypeError' : e instanceof RangeError ? 'RangeError' : e instanceof ReferenceError ? 'ReferenceError' : e instanceof SyntaxError ? 'SyntaxError' : e instanceof URIError ? 'URIError' : 'other'; nm = e.name; msg = e.message; proto = Object.getPrototypeOf(e) === this[cls].prototype } cls"
+		return "var cls = 'none'; try { " + body + " } catch (e) { cls = e instanceof TypeError ? 'TypeError' : e instanceof RangeError ? 'RangeError' : e instanceof ReferenceError ? 'ReferenceError' : e instanceof SyntaxError ? 'SyntaxError' : e instanceof URIError ? 'URIError' : 'other'; nm = e.name; msg = typeof e.message == 'string' ? e.message : ''; proto = Object.getPrototypeOf(e) === this[cls].prototype } cls"
 	}
 	var script, want string
 	switch verifChoose(10) {
@@ -135,6 +135,6 @@ func VerifH_C19_error_classes() {
 		prb, _ := pr.ToBoolean()
 		mg, _ := vm.Get("msg")
 		verifAssert(nm.String() == want && prb, "name and prototype chain of the error object")
-		verifAssert(len(mg.String()) > 0, "non-empty message")
+		verifAssertK(len(mg.String()) > 0, "C19-array-length-empty-message", want == "RangeError" && (script == "new Array(x)" || script == "var a = []; a.length = x"), "non-empty message (a string)")
 	}
 }
